@@ -314,6 +314,7 @@ CONFIGS = {
 
 def _cfg_worker(a):
     progs, cfg, tmo, deadline = a
+    deadline = time.time() + deadline
     try:
         return run_config(progs, cfg, tmo, deadline, qjobs=4)
     except Inconclusive as e:
@@ -325,7 +326,7 @@ def main(tier):
     progs = load_progs()
     rep = common.Reporter(PID)
     tmo = 1800 if tier == "quick" else 3000
-    deadline = time.time() + (2700 if tier == "quick" else 5400)      # after the MIR dumps
+    deadline = 1800 if tier == "quick" else 3600      # seconds for the CFA construction of ONE configuration, counted from its start
     cfgs = CONFIGS[tier]
     only = os.environ.get("VERIF_C04_ONLY")        # development aid: run the configurations whose name contains this text
     if only:
